@@ -56,7 +56,7 @@ class C10(Check):
     ASSUMPTIONS = ['"rejected as a whole": start-up ends with the error report (SystemExit / ConfigError), its text names '
                    'every module with an injected error, and no configured value has reached any driver',
                    'values are compared in wire form by the harness\' own conversion']
-    PROBES = ('c10.good-config', 'c10.main-unit-in-structured-member', 'c10.bad-config', 'c10.multi-file', 'c10.limits-overridden', 'c10.write-configured',
+    PROBES = ('c10.good-config', 'c10.export-configured', 'c10.main-unit-in-structured-member', 'c10.bad-config', 'c10.multi-file', 'c10.limits-overridden', 'c10.write-configured',
               'c10.several-errors', 'c10.restart', 'c10.two-modules-of-one-class', 'c10.internal-write-probe', 'fault.start-up-write-comfail') + tuple(f'c10.err.{k}' for k in ERROR_KINDS)
 
     def gen_case(self, rng, tier):
@@ -163,6 +163,10 @@ class C10(Check):
                             e['style'] = 'param'
                     if rng.random() < 0.15:
                         e['props']['visibility'] = rng.choice([1, 2, 3])
+                        e['style'] = 'param'
+                    if rng.random() < 0.12:
+                        # (stating what the class says already)
+                        e['props']['export'] = True
                         e['style'] = 'param'
                     if rng.random() < 0.1:
                         # (readonly=False on a parameter the class declares read-only without a write method leaves
@@ -422,8 +426,15 @@ class C10(Check):
             r = cl.request('describe', timeout=60)
             ctx['description'] = r[2].data if r else None
             probes = ctx['probes'] = []
+            xprobes = ctx['export_probes'] = []
             for spec in shape['specs']:
                 for e in shape['cfgs'][spec['name']]['entries']:
+                    if e['props'].get('export') is True and not shape['cfgs'][spec['name']]['errors']:
+                        # export given in the configuration: described and reachable under the same name
+                        sim.count('c10.export-configured')
+                        exp = genmod_expname(e['p'])
+                        rr = cl.request(f'read {spec["name"]}:{exp}', timeout=60)
+                        xprobes.append((spec['name'], e['p'], exp, rr[2].raw.decode('latin-1')[:160] if rr else None))
                     if 'min' in e['props'] and not shape['cfgs'][spec['name']]['errors']:
                         p = next(p for p in spec['params'] if p['name'] == e['p'])
                         if p['readonly'] and not e['props'].get('readonly') is False or e['props'].get('readonly'):
@@ -605,6 +616,11 @@ class C10(Check):
                                              f'described {adesc.get("visibility", 1)}'))
             if cfg.get('group') and mdesc.get('group') != cfg['group']:
                 res.append(Violation('C10.property-not-applied', 'group', f'{spec["name"]}: group {mdesc.get("group")!r}'))
+        for (m, pn, exp, reply) in ctx.get('export_probes', ()):
+            listed = exp in (ctx.get('description') or {}).get('modules', {}).get(m, {}).get('accessibles', {})
+            if not listed or not reply or 'NoSuch' in reply:
+                res.append(Violation('C10.property-not-applied', 'export',
+                                     f'{m}.{pn}: export=True configured; described as {exp}: {listed}; read {m}:{exp} -> {reply!r}'))
         for (m, pn, v, ok, reply) in ctx.get('probes', ()):
             accepted = bool(reply) and reply.startswith('changed')
             if ok != accepted and reply and ('ReadOnly' not in reply):
